@@ -45,6 +45,9 @@ pub enum Kind {
     CharRef,
     /// the text of a token-valued leaf written as a CDATA section
     CData,
+    /// an unused default-namespace declaration on a token-valued leaf that is written with a prefix (it binds
+    /// nothing: the leaf and everything around it use the prefix); the leaf itself is written with a prefix of its own
+    UnusedDefaultNs,
 }
 
 #[derive(Debug, Clone, Copy, PartialEq, Eq, PartialOrd, Ord, Hash)]
@@ -115,6 +118,7 @@ pub fn applicable(root: &Node) -> Vec<Rw> {
         }
         if n.children.is_empty() && !n.text.is_empty() && (TOKEN_ELEMENTS.contains(&n.name.as_str()) || term_names.contains(&pos)) {
             out.push(Rw { kind: Kind::WsText, pos });
+            out.push(Rw { kind: Kind::UnusedDefaultNs, pos });
             out.push(Rw { kind: Kind::CommentInText, pos });
             out.push(Rw { kind: Kind::CharRef, pos });
             if !n.text.contains("]]>") {
@@ -142,6 +146,8 @@ struct Ser<'a> {
     expanded_by_default: &'a [&'a str],
     /// `xmlns:p` declarations moved to the root by HoistDecl rewrites
     hoisted: Vec<(String, String)>,
+    /// the default namespace in scope
+    default_ns: Option<String>,
 }
 
 impl Ser<'_> {
@@ -150,6 +156,15 @@ impl Ser<'_> {
     }
 
     fn node(&mut self, n: &Node, inherited_prefix: Option<&str>, inherited_renames: &[(String, String)]) {
+        let saved_default_ns = self.default_ns.clone();
+        if let Some(ns) = n.attr("xmlns") {
+            self.default_ns = Some(ns.to_string());
+        }
+        self.node_inner(n, inherited_prefix, inherited_renames);
+        self.default_ns = saved_default_ns;
+    }
+
+    fn node_inner(&mut self, n: &Node, inherited_prefix: Option<&str>, inherited_renames: &[(String, String)]) {
         let pos = self.next;
         self.next += 1;
         let mut attrs = n.attrs.clone();
@@ -195,6 +210,20 @@ impl Ser<'_> {
                     }
                 }
                 prefix = Some(p);
+            }
+        }
+        // the leaf gets a prefix of its own (bound to the namespace it is in) and, next to it, a default-namespace
+        // declaration that nothing uses
+        if self.has(Kind::UnusedDefaultNs, pos) && n.children.is_empty() {
+            if prefix.is_none() {
+                if let Some(ns) = self.default_ns.clone() {
+                    let p = format!("u{pos}");
+                    attrs.push((format!("xmlns:{p}"), ns));
+                    prefix = Some(p);
+                }
+            }
+            if prefix.is_some() {
+                attrs.push(("xmlns".into(), "urn:example:unused".into()));
             }
         }
         if self.has(Kind::AttrOrder, pos) {
@@ -283,7 +312,7 @@ pub fn serialize(root: &Node, rws: &[Rw], expanded_by_default: &[&str]) -> Strin
             }
         }
     }
-    let mut s = Ser { rws, next: 0, out: String::new(), expanded_by_default, hoisted };
+    let mut s = Ser { rws, next: 0, out: String::new(), expanded_by_default, hoisted, default_ns: None };
     if let Some(r) = rws.iter().find(|r| r.kind == Kind::Decl) {
         s.out.push_str(DECLS[r.pos % DECLS.len()]);
     }
@@ -481,6 +510,7 @@ pub fn run(report: &mut Report) {
                 // are read as raw text spans): one finding class per message family and rewrite kind
                 let key = match rws.as_slice() {
                     [r] if matches!(r.kind, Kind::CommentInText | Kind::CharRef | Kind::CData) => format!("C13:{family}:{:?}-inside-a-token-valued-leaf", r.kind),
+                    [r] if r.kind == Kind::UnusedDefaultNs => format!("C13:{family}:unused-default-namespace-declared-on-a-prefixed-leaf"),
                     _ => format!("C13:{family}:{}", what.join("+")),
                 };
                 report.violation(
@@ -495,5 +525,5 @@ pub fn run(report: &mut Report) {
     report.set("distinct_nontrivial", distinct.len() as u64);
     report.set("rewrites_applied_by_kind", json!(per_kind));
     report.set("exhaustive", true);
-    report.set("rule", "seeds: hellos, every reply type (ok, data, bare, load results, rpc-errors with all leaves), get-config data for both agent readers, accepted and rejected ones; rewrites: namespace prefix instead of default namespace (per declaration), whitespace between elements, whitespace around token-valued text (term names included; policy names are strings), a comment / a numeric character reference / a CDATA section inside a token-valued leaf, comments (first/last child, outside the root), another prefix for a namespace bound with xmlns:p (declaration and uses), xmlns:p declarations hoisted to the root element, attribute order, quote style, XML declaration, <x/> vs <x></x>; every applicable (rewrite, position) singly and in pairs; distinct = distinct rewritten documents; oracle: same acceptance and same Debug value as the seed");
+    report.set("rule", "seeds: hellos, every reply type (ok, data, bare, load results, rpc-errors with all leaves), get-config data for both agent readers, accepted and rejected ones; rewrites: namespace prefix instead of default namespace (per declaration), whitespace between elements, whitespace around token-valued text (term names included; policy names are strings), a comment / a numeric character reference / a CDATA section inside a token-valued leaf, an unused default-namespace declaration on a prefixed leaf, comments (first/last child, outside the root), another prefix for a namespace bound with xmlns:p (declaration and uses), xmlns:p declarations hoisted to the root element, attribute order, quote style, XML declaration, <x/> vs <x></x>; every applicable (rewrite, position) singly and in pairs; distinct = distinct rewritten documents; oracle: same acceptance and same Debug value as the seed");
 }
